@@ -464,8 +464,9 @@ func RunC12(r *mon.Run) {
 			break
 		}
 	}
+	connLane(r)
 	raceReports(r)
-	r.Assume("schedules are those the Go scheduler produced (counted, not enumerated); DropConn/RegisterConn histories are covered by C11 and the proxy lane")
+	r.Assume("schedules are those the Go scheduler produced (counted, not enumerated)")
 	r.Sample(map[string]any{"history": "writers register S1..Sk (40 methods each, last ones invalid) concurrently with readers requesting GET /h<id>/s<k>/m<0|39>/x, GET /h<id>/alt/y/s<k>/m<i> and gRPC /vf.h<id>.S<k>/Me<i>", "methods_per_service": methodsPerSvc})
 	if r.Counter("requests_overlapping_a_registration_window") == 0 {
 		r.Inconclusive("no request overlapped a registration window")
